@@ -397,9 +397,23 @@ class Lengths:
     def _is_identifier(self, t):
         """elem(database[kw]) / database[kw][i]: an identifier (assumed to have param_identifier_size bytes)."""
         for x in walk(t):
-            if isinstance(x, tuple) and x and x[0] == "param" and x[1] == "database":
+            if isinstance(x, tuple) and x and x[0] == "param" and x[1] in self._db_params():
                 return True
         return False
+
+    def _db_params(self):
+        """Names under which the plaintext database reaches the scheme: the third parameter of _Enc / EDBSetup."""
+        if getattr(self, "_dbp", None) is None:
+            names = set()
+            for mn in ("_Enc", "EDBSetup"):
+                try:
+                    m = self.scheme.method(mn)
+                except Exception:
+                    m = None
+                if m is not None and len(m.params) > 2:
+                    names.add(m.params[2])
+            self._dbp = names or {"database"}
+        return self._dbp
 
     def elem_lengths(self, cont):
         out = {}
